@@ -596,7 +596,7 @@ def main():
             rec.error(traceback.format_exc(limit=6))
         rec.write(args.out)
         return
-    n_single, n_sample, n_emit = (500, 120, 40) if args.tier == "quick" else (5000, 1200, 300)
+    n_single, n_sample, n_emit = (500, 120, 40) if args.tier == "quick" else (10000, 2400, 500)
     rng = rng_of(args.seed, 20)
     for i in range(n_single + n_sample + n_emit):
         try:
